@@ -335,7 +335,36 @@ def band_body(ctx, case):
     ctx.close(astro.magnitude_to_flux(0.0, b), zp[2] * 1.51e7 * zp[1], 1e-14, "band %s zero point" % b)
 
 
+def huge_cases(tier):
+    return [{"shape": (2, 1100, 16000), "dtype": "float32"}, {"shape": (2, 70000, 300), "dtype": "float64"}]
+
+
+def huge_body(ctx, case):
+    """A long telemetry record (more than 2^25 samples): still the r0 whose slope variance is the variance of the record,
+    every sub-aperture counted."""
+    ac, _, _ = A()
+    shape, dt = tuple(case["shape"]), case["dtype"]
+    ctx.case(case, nontrivial=True, classes=[dt, "samples_%d" % int(np.prod(shape))])
+    rng = gen.np_rng(shape[1])
+    wl, d = 500e-9, 0.4
+    # per sub-aperture r0 values, hence per sub-aperture slope variances; independent oracle: the mean of the r0 values that the
+    # (two-pass, double precision) variance of each row gives
+    r0_rows = np.linspace(0.08, 0.25, shape[1])
+    sig = np.sqrt(np.asarray(ac.slope_variance_from_r0(r0_rows, wl, d), dtype=np.float64))
+    slopes = np.empty(shape, dtype=dt)
+    for k in range(shape[0]):
+        slopes[k] = (rng.standard_normal(size=shape[1:], dtype=np.float32 if dt == "float32" else np.float64) * sig[:, None]).astype(dt)
+    v = np.empty(shape[:2])
+    for k in range(shape[0]):
+        blk = slopes[k].astype(np.float64)
+        v[k] = ((blk - blk.mean(axis=-1, keepdims=True)) ** 2).mean(axis=-1)
+    want = float((((0.162 * wl ** 2 * d ** (-1.0 / 3)) / v) ** 0.6).mean())
+    got = float(ac.r0_from_slopes(slopes, wl, d))
+    ctx.close(got, want, 1e-4 if dt == "float32" else 1e-10, "r0_from_slopes of a record of %d samples == mean over sub-apertures of the r0 of each row's variance" % int(np.prod(shape)), scale=want, name="huge record")
+
+
 LAWS = [
+    plain_law("huge_record", huge_cases, huge_body, shards={"quick": 2, "thorough": 2}),
     given_law("conversions", conv_cases(), conv_body, {"quick": 1500, "thorough": 20000}, shards={"quick": 3, "thorough": 16}),
     given_law("slopes", slope_cases(), slope_body, {"quick": 500, "thorough": 7500}, shards={"quick": 3, "thorough": 16}),
     given_law("profiles", profile_cases(), profile_body, {"quick": 800, "thorough": 12500}, shards={"quick": 3, "thorough": 16}),
